@@ -142,6 +142,12 @@ func checkC11(c *Ctx) {
 	// lookups read the nodes of THIS history: a re-used node key must not keep serving a cached node of an erased future
 	checkCacheRefresh(c)
 
+	// AVL decision table
+	c.rule("TABLE-balance", "rebalancing decision over balance factor × child balance factor", 15)
+	checkBalanceTable(c, l, "TABLE-balance", "v1", l.Func("", "*MutableTree.balance"))
+
+	checkTreeRules(c, l, map[string]bool{"lookup": true, "rotate": true})
+
 	// PASS rebalance
 	calc := l.Func("", "*Node.calcHeightAndSize")
 	bal := l.Func("", "*MutableTree.balance")
